@@ -439,7 +439,10 @@ theorem repGreedyGen_term (ctx : Ctx)
       · exact .nil _ hm
       · exact hfirst _ _ hm
     · apply Step.Term.force
-      exact greedyNode_term hB hT min bound _ _ _ position _ hD (hm.of_panic_eq rfl)
+      apply Step.Term.append
+      · exact greedyNode_term hB hT min bound _ _ _ position _ hD (hm.of_panic_eq rfl)
+      · intro st2 h2
+        exact greedyNode_term hB hT min bound _ _ _ position _ hD h2
   · split
     · exact .nil _ hm
     · exact hfirst _ _ hm
